@@ -1750,6 +1750,11 @@ GRIupdateRIG(int32 hdf_file_id, ri_info_t *img_ptr)
     /* write out RIG */
     if (img_ptr->rig_ref == DFTAG_WILDCARD)
         img_ptr->rig_ref = Htagnewref(hdf_file_id, DFTAG_RIG);
+    /* an existing RIG cannot grow in place (e.g. a palette was added to an image loaded from the file): */
+    /* release its old space and keep the tag/ref */
+    if (Hexist(hdf_file_id, DFTAG_RIG, img_ptr->rig_ref) == SUCCEED &&
+        HDreuse_tagref(hdf_file_id, DFTAG_RIG, img_ptr->rig_ref) == FAIL)
+        HGOTO_ERROR(DFE_GROUPWRITE, FAIL);
     if (DFdiwrite(hdf_file_id, GroupID, DFTAG_RIG, img_ptr->rig_ref) == FAIL)
         HGOTO_ERROR(DFE_GROUPWRITE, FAIL);
 
